@@ -140,6 +140,12 @@ Proof.
   - rewrite E. simpl. exact IH.
 Qed.
 
+Lemma append_keeps_other n e d f : In f d -> fname f <> n -> In f (append_to n e d).
+Proof.
+  intros Hf Hn. unfold append_to. apply in_map_iff. exists f. split; auto.
+  assert (E : has_name n f = false) by (apply has_name_false; auto). rewrite E. reflexivity.
+Qed.
+
 (** * create *)
 Lemma create_in n d tk : in_dir n (fst (create n d tk)) = true.
 Proof.
@@ -322,6 +328,16 @@ Section Prune.
         destruct (mem (fname f) (map fname (victims m d))) eqn:Em; auto.
         assert (In f (victims m d)) by (apply removed_iff_victim; auto).
         destruct (victims_in_matching _ _ _ H) as [_ Hmt]. congruence.
+  Qed.
+
+  (** an entry that is not one of the appender's log files is never removed (any limit, also 0) *)
+  Lemma prune_keeps_foreign m d f : NoDup (map fname d) -> In f d -> mt f = false -> In f (fst (prune c m d)).
+  Proof.
+    intros ND Hf Hnm. rewrite prune_unfold. destruct (length (filter mt d) <? m)%nat; simpl; auto.
+    apply filter_In. split; auto. apply negb_true_iff.
+    destruct (mem (fname f) (map fname (victims m d))) eqn:Em; auto.
+    assert (In f (victims m d)) by (apply removed_iff_victim; auto).
+    destruct (victims_in_matching _ _ _ H) as [_ Hmt]. congruence.
   Qed.
 
   (** for every name, the file of that name is either kept or moved to the removed list, unchanged *)
